@@ -48,7 +48,7 @@ TOL = 1e-16
 # ------------------------------------------------------------------------------------------------ generation
 def _strip_flows(spec):
     for t in [spec["tree"]] + spec["tree"]["kids"]:
-        t["stack"] = [d for d in t["stack"] if d[0] != "CapitalFlow"]
+        t["stack"] = [d for d in t["stack"] if d[0] not in ("CapitalFlow", "QuietOps")]
 
 
 def _fresh_prices(rng, spec):
@@ -632,7 +632,7 @@ def run_classes(case, h, log):
     stacks = []
     if case["kind"] == "gen":
         stacks = [spec["tree"]["stack"]] + [k["stack"] for k in spec["tree"]["kids"]]
-    if any(d[0] == "CapitalFlow" for st in stacks for d in st):
+    if any(d[0] in ("CapitalFlow", "QuietOps") for st in stacks for d in st):
         cls.add("flows")
     return cls
 
